@@ -70,6 +70,16 @@ def translate(backend: str, a: ast.AST) -> Tuple[str, Any]:
     """Run the whole repository pipeline on a query AST.  Returns ("ok", {files, info}) or
     ("error", exception class name, message)."""
     exe = executors()[backend]()
+    captured: Dict[str, Any] = {}
+    orig_copy = exe._copy_template_file
+
+    def _copy(j2_env, info_dict, template_file, final_dir):
+        # harness-side observation of the dictionary handed to jinja2 (no change to /repo)
+        if not captured:
+            captured.update({k: (list(v) if isinstance(v, (list, tuple)) else v) for k, v in info_dict.items()})
+        return orig_copy(j2_env, info_dict, template_file, final_dir)
+
+    exe._copy_template_file = _copy  # type: ignore
     with tempfile.TemporaryDirectory(prefix="fv-pkg-") as d:
         out = Path(d)
         try:
@@ -89,5 +99,6 @@ def translate(backend: str, a: ast.AST) -> Tuple[str, Any]:
                 "all_filenames": list(info.all_filenames),
                 "treename": getattr(rr, "treename", None),
                 "filename": getattr(rr, "filename", None),
+                "slots": captured,
             },
         )
